@@ -1035,7 +1035,9 @@ Definition tw_psum (fx : bool) (s : tw_state) (i : nat) (p : tw_pthread) (s' : t
     (tw_in_close (tw_pt_pc p1) = true -> tw_in_close (tw_pt_pc p) = true \/
        (In TwCClose (tw_pt_calls p) /\ (tw_others_done s i = true \/ Nat.ltb 1 (tw_nprod s) = false))) /\
     (tw_closing_pc (tw_pt_pc p) = true -> (forall r, tw_pt_calls p = TwCClose :: r -> r = []) -> tw_closing_pc (tw_pt_pc p1) = true) /\
-    (exists pre, tw_pt_calls p = pre ++ tw_pt_calls p1).
+    (exists pre, tw_pt_calls p = pre ++ tw_pt_calls p1) /\
+    (tw_applied s1 = tw_applied s \/ (exists d, tw_applied s1 = tw_applied s ++ [TwADef i d]) \/
+     (tw_pt_pc p = TwPJoin /\ tw_cpc s = TwCDone /\ tw_applied s1 = tw_applied s ++ [TwAEnd] /\ tw_bpc (tw_pt_pc p1) = true)).
 
 Lemma tw_dpc_noholdsE : forall pc, tw_dpc pc = true -> tw_pholdsE pc = false.
 Proof. intros pc H. apply tw_dpc_noholds in H. tauto. Qed.
@@ -1062,12 +1064,12 @@ Proof.
       match goal with |- tw_psum _ _ _ _ (tw_setp ?A _ ?B) => exists A, B end. rewrite Epc. tw_proj.
       repeat (split; [reflexivity|]).
       split; [right; exists c, q1, a; repeat split; auto|].
-      split; [intro Hic; left; exact Hic|]. split; [discriminate|exists []; reflexivity].
+      split; [intro Hic; left; exact Hic|]. split; [discriminate|]. split; [exists []; reflexivity|left; reflexivity].
     - apply tw_alloc_none_same in Eal. subst q1. left. injection HS as <-. cbn [fst snd].
       match goal with |- tw_psum _ _ _ _ (tw_setp ?A _ ?B) => exists A, B end. rewrite Epc. tw_proj.
       repeat (split; [reflexivity|]).
       split; [left; split; reflexivity|].
-      split; [intro Hic; left; exact Hic|]. split; [discriminate|exists []; reflexivity].
+      split; [intro Hic; left; exact Hic|]. split; [discriminate|]. split; [exists []; reflexivity|left; reflexivity].
     - right. injection HS as <-. eexists; reflexivity. }
   all: tw_pcases HS; try (right; injection HS as <-; eexists; reflexivity).
   all: left.
@@ -1088,8 +1090,14 @@ Proof.
                           | pose proof (tw_send_done_in_close _ _ _ _ _ _ _ _ EX Hic) as [I0|(I1 & I2)] ];
                     first [ right; split; [exact I1|right; exact I2]
                           | left; cbn [tw_in_close]; rewrite ?I0; reflexivity ] |];
-            split; [cbn [tw_closing_pc]; intros Hcl Hlast; try discriminate|
-                    first [solve [eapply tw_begin_suffix; eauto] | solve [eapply tw_ret_suffix; eauto] | solve [eapply tw_send_done_suffix; eauto]]]).
+            split; [cbn [tw_closing_pc]; intros Hcl Hlast;
+                    first [ discriminate
+                          | destruct k; try discriminate; unfold tw_send_done in EX; cbn [orb] in EX; injection EX as <- <-; reflexivity
+                          | destruct Hp as (r & Er); pose proof (Hlast _ Er); subst r; unfold tw_ret in EX; rewrite Er in EX;
+                            cbn [tw_begin] in EX; injection EX as <- <-; reflexivity ]|];
+            split; [first [solve [eapply tw_begin_suffix; eauto] | solve [eapply tw_ret_suffix; eauto] | solve [eapply tw_send_done_suffix; eauto]]|];
+            first [left; tw_proj; congruence
+                  |right; right; split; [reflexivity|]; split; [assumption|]; split; [tw_proj; congruence|exact FB]]).
   (* direct paths *)
   all: try (injection HS as <-; cbn [fst snd];
             match goal with |- tw_psum _ _ _ _ (tw_setp ?A _ ?B) => exists A, B end; rewrite ?Epc; tw_proj;
@@ -1103,13 +1111,9 @@ Proof.
                     first [discriminate | left; exact Hic | left; reflexivity
                           | right; split; [destruct Hp as (r0 & ->); left; reflexivity|left; assumption] ]|];
             split; [cbn [tw_closing_pc tw_sd_k] in *; intros Hcl Hlast;
-                    first [discriminate | exact Hcl | reflexivity | destruct (tw_sd_k c); try discriminate; reflexivity]
-                   |exists []; reflexivity]).
-  - (* PSigUnlock KClose: msg_send returned 0 *)
-    destruct k; try discriminate. unfold tw_send_done in EX. cbn [orb] in EX. injection EX as <- <-. reflexivity.
-  - (* PJoin *)
-    destruct Hp as (r & Er). pose proof (Hlast _ Er). subst r. unfold tw_ret in EX. rewrite Er in EX.
-    cbn [tw_begin] in EX. injection EX as <- <-. reflexivity.
+                    first [discriminate | exact Hcl | reflexivity | destruct (tw_sd_k c); try discriminate; reflexivity]|];
+            split; [exists []; reflexivity|];
+            first [left; try (destruct (tw_cpc s)); reflexivity | right; left; eexists; reflexivity]).
 Qed.
 
 
@@ -1164,7 +1168,7 @@ Proof.
   pose proof (tw_fifo_pstep _ _ _ _ _ _ HF HT Hn HS) as HF'.
   destruct (tw_pstep_sum _ _ _ _ _ (HH _ _ Hn) HS) as [SUM|(f & ->)].
   2: { destruct HF' as (Hf & _). discriminate. }
-  destruct SUM as (s1 & p1 & -> & Sp & Sc & Sh & Sf & Sfl & Sq & Sa & SE1 & SE2 & (pre & Spre)).
+  destruct SUM as (s1 & p1 & -> & Sp & Sc & Sh & Sf & Sfl & Sq & Sa & SE1 & SE2 & (pre & Spre) & Sap).
   (* the stepping thread is not finished *)
   assert (Hnd : tw_pt_pc p <> TwPDone).
   { intro E. rewrite (tw_done_no_step _ _ _ _ E) in HS. discriminate. }
@@ -1266,7 +1270,8 @@ Lemma tw_cstep_facts : forall s s', tw_cstep s = Some s' ->
                           (tw_cpc s = TwCStart \/ (tw_cpc s = TwCUnlockM /\ tw_held s = None))) /\
   (tw_quit s = true -> tw_quit s' = true) /\
   (tw_quit s' = true -> tw_quit s = true \/
-     (tw_cpc s = TwCLockP /\ tw_cpc s' = TwCUnlockP /\ exists a sz m, tw_held s = Some (a, sz) /\ read_msg (tw_q s) a sz = Ok m /\ tw_kind_of m = 0)).
+     (tw_cpc s = TwCLockP /\ tw_cpc s' = TwCUnlockP /\ exists a sz m, tw_held s = Some (a, sz) /\ read_msg (tw_q s) a sz = Ok m /\ tw_kind_of m = 0)) /\
+  (tw_applied s' = tw_applied s \/ exists m, tw_applied s' = tw_applied s ++ [TwAMsg m]).
 Proof.
   intros s s' HS. unfold tw_cstep in HS.
   destruct (tw_cpc s) eqn:Ecpc; tw_ccases HS;
@@ -1279,6 +1284,7 @@ Proof.
   - (* CLockP, message read *)
     injection HS as <-. unfold tw_dispatch. destruct (tw_kind_of rm =? 0) eqn:Ek; [|destruct (tw_kind_of rm =? 1)]; tw_proj;
       cbn [tw_ctrans]; repeat split; intros; try discriminate; auto.
+    all: try (right; eexists; reflexivity).
     right. repeat split; auto. exists ha, hsz, rm. repeat split; auto. apply N.eqb_eq. exact Ek.
   - (* CLockP, fault *)
     injection HS as <-. tw_proj. rewrite Ecpc. cbn [tw_ctrans]. repeat split; intros; try discriminate; auto.
@@ -1289,7 +1295,7 @@ Proof.
   intros cap s s' HF (K1 & K2 & K3 & K4 & K5) HS.
   pose proof (tw_cstep_prods _ _ HS) as Hp.
   pose proof (tw_fifo_cstep _ _ _ HF HS) as HF'.
-  destruct (tw_cstep_facts _ _ HS) as (Htr & Ha & Hdone & Hq2 & Hq1).
+  destruct (tw_cstep_facts _ _ HS) as (Htr & Ha & Hdone & Hq2 & Hq1 & _).
   (* quit only by dispatching a message of kind 0, which is in accepted *)
   assert (Hq1' : tw_quit s' = true -> tw_quit s = true \/ tw_has_close s).
   { intro Hq. destruct (Hq1 Hq) as [Hq0|(Ec & Ec' & a & sz & m & Eh & ER & Ek)]; [auto|]. right.
@@ -1304,11 +1310,11 @@ Proof.
     intros j q Hq. rewrite Hp in Hq. eauto.
   - intros Hprem. assert (Hold : tw_quit s = true \/ tw_has_close s).
     { destruct Hprem as [Hq|(e & Hin & Hk)]; [auto|]. right. exists e. rewrite <- Ha. auto. }
-    destruct (K2 Hold) as (p0 & Hn0 & Hcl & Ho). exists p0. rewrite Hp. split; auto. split; auto.
-    intros j q Hq. rewrite Hp in Hq. eauto.
+    destruct (K2 Hold) as (p0 & Hn0 & Hcl & Ho). exists p0. rewrite Hp. split; [exact Hn0|]. split; [exact Hcl|].
+    intros j q Hq Hne. rewrite Hp in Hq. eapply Ho; eauto.
   - intros Ec Eh.
     assert (Ecs : tw_cpc s = TwCLockM) by (rewrite Ec in Htr; destruct (tw_cpc s); try discriminate; reflexivity).
-    eapply tw_lockM_empty; eauto.
+    exact (tw_lockM_empty cap s s' HF Ecs HS Eh).
   - intros Ec. destruct (Hdone Ec) as (Hq & Hq' & Eq & [Es|(Es & Eh)]).
     + destruct (K5 Hq) as [Hx|Hx]; rewrite Es in Hx; discriminate.
     + split; auto. rewrite Eq. auto.
@@ -1320,3 +1326,189 @@ Proof.
     unfold tw_cstep in HS. rewrite Ecs in HS. destruct (tw_held s); [injection HS as <-; tw_proj; discriminate|].
     rewrite Hq0 in HS. injection HS as <-. tw_proj. discriminate.
 Qed.
+
+(* ---------- jls_wr_close (AEnd) is the last operation; by then everything accepted has been applied ---------- *)
+Definition tw_joined_inv (s : tw_state) : Prop :=
+  In TwAEnd (tw_applied s) ->
+  (forall i p, nth_error (tw_prods s) i = Some p -> tw_pt_pc p = TwPDone) /\ tw_cpc s = TwCDone /\
+  exists l, tw_applied s = l ++ [TwAEnd] /\ ~ In TwAEnd l.
+
+Definition tw_all_inv (cap : N) (s : tw_state) : Prop :=
+  tw_lock_inv s /\ tw_prog_inv cap s /\ tw_fifo cap s /\ tw_head_inv s /\ tw_cw_inv s /\ tw_close_inv s /\ tw_joined_inv s.
+
+Lemma tw_closing_bpc_done : forall pc, tw_closing_pc pc = true -> tw_bpc pc = true -> pc = TwPDone.
+Proof. destruct pc; cbn; intros; try discriminate; auto. Qed.
+
+Lemma tw_joined_pstep : forall fx cap s i p s', tw_all_inv cap s -> nth_error (tw_prods s) i = Some p ->
+  tw_pstep fx s i p = Some s' -> tw_joined_inv s'.
+Proof.
+  intros fx cap s i p s' (HL & HP & HF & HH & HW & (K1 & K2 & K3 & K4 & K5) & HJ) Hn HS.
+  pose proof (tw_fifo_pstep _ _ _ _ _ _ HF (HP _ _ Hn) Hn HS) as HF'.
+  assert (Hnd : tw_pt_pc p <> TwPDone).
+  { intro E. rewrite (tw_done_no_step _ _ _ _ E) in HS. discriminate. }
+  destruct (tw_pstep_sum _ _ _ _ _ (HH _ _ Hn) HS) as [SUM|(f & ->)].
+  2: { destruct HF' as (Hf & _). discriminate. }
+  destruct SUM as (s1 & p1 & -> & Sp & Sc & Sh & Sf & Sfl & Sq & Sa & SE1 & SE2 & (pre & Spre) & Sap).
+  intro Hin. tw_proj.
+  assert (Hno : ~ In TwAEnd (tw_applied s)).
+  { intro Hx. destruct (HJ Hx) as (Hall & _). apply Hnd. eapply Hall; eauto. }
+  destruct Sap as [Sap|[(d & Sap)|(Epc & Ec & Sap & Hb)]].
+  - rewrite Sap in Hin. contradiction.
+  - rewrite Sap in Hin. apply in_app_or in Hin. destruct Hin as [Hin|[Hin|[]]]; [contradiction|discriminate].
+  - destruct (K4 Ec) as (Hq & _). destruct (K2 (or_introl Hq)) as (p0 & Hn0 & Hcl0 & Ho).
+    assert (i = 0%nat) as ->.
+    { destruct (Nat.eq_dec i 0); auto. exfalso. apply Hnd. eapply Ho; eauto. }
+    assert (Hp1 : tw_pt_pc p1 = TwPDone).
+    { apply tw_closing_bpc_done; auto. apply SE2; [rewrite Epc; reflexivity|].
+      intros r Er. pose proof (HW _ _ Hn) as Hc. cbn in Hc. apply (Hc [] r). exact Er. }
+    split; [|split; [congruence|exists (tw_applied s); auto]].
+    intros j q Hq'. rewrite Sp in Hq'. destruct (Nat.eq_dec j 0) as [->|Hne].
+    + rewrite (tw_nth_upd_eq _ _ _ _ _ Hn) in Hq'. injection Hq' as <-. exact Hp1.
+    + rewrite tw_nth_upd_neq in Hq' by congruence. eapply Ho; eauto.
+Qed.
+
+Lemma tw_joined_cstep : forall s s', tw_joined_inv s -> tw_cstep s = Some s' -> tw_joined_inv s'.
+Proof.
+  intros s s' HJ HS Hin. destruct (tw_cstep_facts _ _ HS) as (Htr & _ & _ & _ & _ & Hap).
+  assert (Hin0 : In TwAEnd (tw_applied s)).
+  { destruct Hap as [Hap|(m & Hap)]; rewrite Hap in Hin; auto.
+    apply in_app_or in Hin. destruct Hin as [Hin|[Hin|[]]]; [auto|discriminate]. }
+  destruct (HJ Hin0) as (_ & Ec & _). unfold tw_cstep in HS. rewrite Ec in HS. discriminate.
+Qed.
+
+Lemma tw_close_init : forall cap progs, tw_close_inv (tw_init cap progs) /\ tw_joined_inv (tw_init cap progs).
+Proof.
+  intros cap progs. unfold tw_close_inv, tw_joined_inv, tw_has_close, tw_init. tw_proj.
+  split; [|intros []].
+  split; [|split; [|split; [|split]]]; try discriminate.
+  - intros i p E Hic. apply nth_error_In, in_map_iff in E. destruct E as (cs & <- & _). discriminate.
+  - intros [H|(e & [] & _)]. discriminate.
+Qed.
+
+Lemma tw_all_reach : forall fx cap progs s, tw_wf cap progs -> tw_wf_close progs -> tw_reach fx cap progs s -> tw_all_inv cap s.
+Proof.
+  intros fx cap progs s Hwf Hwc HR.
+  assert (HL := tw_lock_reach _ _ _ _ HR). assert (HP := tw_prog_reach _ _ _ _ Hwf HR).
+  assert (HF := tw_fifo_reach _ _ _ _ Hwf HR). assert (HH := tw_head_reach _ _ _ _ HR).
+  assert (HW := tw_cw_reach _ _ _ _ Hwc HR).
+  assert (G : tw_close_inv s /\ tw_joined_inv s).
+  { clear HL HP HF HH HW. induction HR as [|s t s' HR IH HS|s d HR IH].
+    - apply tw_close_init.
+    - assert (HL := tw_lock_reach _ _ _ _ HR). assert (HP := tw_prog_reach _ _ _ _ Hwf HR).
+      assert (HF := tw_fifo_reach _ _ _ _ Hwf HR). assert (HH := tw_head_reach _ _ _ _ HR).
+      assert (HW := tw_cw_reach _ _ _ _ Hwc HR). destruct IH as (IC & IJ).
+      unfold tw_step in HS. destruct (tw_fault s); [discriminate|]. destruct t as [i|].
+      + destruct (nth_error (tw_prods s) i) as [p|] eqn:En; [|discriminate]. split.
+        * exact (tw_close_pstep fx cap s i p s' HH HW HL HF (HP _ _ En) IC En HS).
+        * apply (tw_joined_pstep fx cap s i p s'); auto.
+          exact (conj HL (conj HP (conj HF (conj HH (conj HW (conj IC IJ)))))).
+      + split; [eapply tw_close_cstep; eauto|eapply tw_joined_cstep; eauto].
+    - exact IH. }
+  destruct G as (G1 & G2). exact (conj HL (conj HP (conj HF (conj HH (conj HW (conj G1 G2)))))).
+Qed.
+
+(* C07 close_post / C06 file_refines_sync: once jls_twr_close has called jls_wr_close (AEnd), the writer
+   thread has ended, every producer has finished, the queue is empty, the operations handed to the
+   synchronous writer are exactly the accepted messages in acceptance order (definitions interleaved
+   at their process-lock positions) followed by the close, and nothing follows the close *)
+Lemma tw_close_post : forall fx cap progs s, tw_wf cap progs -> tw_wf_close progs -> tw_reach fx cap progs s ->
+  In TwAEnd (tw_applied s) ->
+  tw_cpc s = TwCDone /\ tw_final s = true /\ abs (tw_q s) = [] /\ tw_held s = None /\
+  tw_msgs_of (tw_applied s) = tw_acc_msgs s /\
+  exists l, tw_applied s = l ++ [TwAEnd] /\ ~ In TwAEnd l.
+Proof.
+  intros fx cap progs s Hwf Hwc HR Hin.
+  destruct (tw_all_reach _ _ _ _ Hwf Hwc HR) as (HL & HP & HF & HH & HW & (K1 & K2 & K3 & K4 & K5) & HJ).
+  destruct (HJ Hin) as (Hall & Ec & Hl). destruct (K4 Ec) as (Hq & Ha).
+  destruct HF as (Hf & Hz & es & HRep & HC & HSz & HHd & HA).
+  assert (Hh : tw_held s = None) by (apply Hz; rewrite Ec; reflexivity).
+  split; [exact Ec|]. split.
+  - unfold tw_final. rewrite Ec, Bool.andb_true_r. apply forallb_forall. intros p Hp. apply In_nth_error in Hp.
+    destruct Hp as (i & Hp). unfold tw_pdone. rewrite (Hall _ _ Hp). reflexivity.
+  - split; [exact Ha|]. split; [exact Hh|]. split; [|exact Hl].
+    unfold tw_processed, tw_unprocessed, tw_cdone in HA. rewrite Ec, Ha, app_nil_r in HA. symmetry. exact HA.
+Qed.
+
+(* ---------- schedules ---------- *)
+Lemma tw_run_reach : forall fx cap progs l s s', tw_reach fx cap progs s -> tw_run fx s l = Some s' -> tw_reach fx cap progs s'.
+Proof.
+  induction l as [|d r IH]; intros s s' HR H; cbn [tw_run] in H.
+  - injection H as <-. exact HR.
+  - destruct d as [t|d].
+    + destruct (tw_step fx s t) as [s1|] eqn:E; [|discriminate]. eapply IH; [|exact H]. eapply tw_reach_step; eauto.
+    + eapply IH; [|exact H]. apply tw_reach_tick. exact HR.
+Qed.
+
+Lemma tw_not_enabled_all : forall fx s, tw_some_enabled fx s = false -> forall t, tw_step fx s t = None.
+Proof.
+  intros fx s H t. unfold tw_some_enabled in H.
+  assert (G : forall t', In t' (tw_tids s) -> tw_step fx s t' = None).
+  { intros t' Hin. destruct (tw_step fx s t') eqn:E; auto.
+    assert (existsb (tw_enabled fx s) (tw_tids s) = true); [|congruence].
+    apply existsb_exists. exists t'. split; auto. unfold tw_enabled. rewrite E. reflexivity. }
+  destruct t as [i|]; [|apply G; left; reflexivity].
+  destruct (nth_error (tw_prods s) i) as [p|] eqn:En.
+  - apply G. right. apply in_map. apply in_seq. split; [lia|]. cbn. apply nth_error_Some. congruence.
+  - unfold tw_step. destruct (tw_fault s); auto. rewrite En. reflexivity.
+Qed.
+
+(* C07, the protocol as it is in /repo: jls_twr_close ignores a failed msg_send(CLOSE); the writer thread
+   then waits for an event that never comes while jls_bkt_finalize waits for the writer thread.
+   Witness: capacity 128, one producer [user_data 60 bytes; user_data 20 bytes; close], the consumer is
+   not scheduled while 5001 ms pass inside jls_twr_close. *)
+Definition tw_hang_check : bool :=
+  match tw_run false (tw_init 128 tw_hang_prog) tw_hang_sched with
+  | None => false
+  | Some s =>
+    tw_deadlocked false s &&
+    match map tw_pt_pc (tw_prods s) with [TwPJoin] => true | _ => false end &&
+    match tw_cpc s with TwCWaitReacq => true | _ => false end &&
+    negb (tw_signalled s) && Nat.eqb (length (tw_acc_msgs s)) 2 &&
+    (if list_eq_dec (list_eq_dec N.eq_dec) (tw_processed s) (tw_acc_msgs s) then true else false) &&
+    negb (existsb (fun a => match a with TwAEnd => true | _ => false end) (tw_applied s))
+  end.
+
+Lemma tw_hang_check_true : tw_hang_check = true.
+Proof. vm_compute. reflexivity. Qed.
+
+Lemma tw_hang_wf : tw_wf 128 tw_hang_prog /\ tw_wf_close tw_hang_prog.
+Proof.
+  split.
+  - split; [lia|]. split; [lia|]. repeat constructor; cbn; lia.
+  - intros [|[|i]] cs H; cbn in H; try discriminate.
+    injection H as <-. cbn. intros pre post Hx.
+    destruct pre as [|a [|b [|c pre]]]; cbn in Hx; try discriminate.
+    + injection Hx as _ _ Hx. subst. reflexivity.
+    + injection Hx as _ _ _ Hx. destruct pre; discriminate.
+Qed.
+
+Lemma tw_close_hang : exists s,
+  tw_wf 128 tw_hang_prog /\ tw_wf_close tw_hang_prog /\
+  tw_run false (tw_init 128 tw_hang_prog) tw_hang_sched = Some s /\ tw_reach false 128 tw_hang_prog s /\
+  (forall t, tw_step false s t = None) /\ tw_some_sleeping s = false /\ tw_final s = false /\ tw_fault s = None /\
+  map tw_pt_pc (tw_prods s) = [TwPJoin] /\ tw_cpc s = TwCWaitReacq /\ tw_signalled s = false /\
+  length (tw_acc_msgs s) = 2%nat /\ tw_processed s = tw_acc_msgs s /\ ~ In TwAEnd (tw_applied s).
+Proof.
+  pose proof tw_hang_check_true as H. unfold tw_hang_check in H.
+  destruct (tw_run false (tw_init 128 tw_hang_prog) tw_hang_sched) as [s|] eqn:E; [|discriminate].
+  exists s. destruct tw_hang_wf as (Hwf & Hwc).
+  apply andb_prop in H. destruct H as (H & C6). apply andb_prop in H. destruct H as (H & C5).
+  apply andb_prop in H. destruct H as (H & C4). apply andb_prop in H. destruct H as (H & C3).
+  apply andb_prop in H. destruct H as (H & C2). apply andb_prop in H. destruct H as (H & C1).
+  split; [exact Hwf|]. split; [exact Hwc|]. split; [reflexivity|].
+  split; [eapply tw_run_reach; [apply tw_reach_init|exact E]|].
+  unfold tw_deadlocked in H. apply andb_prop in H. destruct H as (D & Df). apply andb_prop in D. destruct D as (D & Dfin).
+  apply andb_prop in D. destruct D as (Den & Dsl).
+  split; [apply tw_not_enabled_all; apply Bool.negb_true_iff; exact Den|].
+  split; [apply Bool.negb_true_iff; exact Dsl|]. split; [apply Bool.negb_true_iff; exact Dfin|].
+  split; [destruct (tw_fault s); [discriminate|reflexivity]|].
+  split. { destruct (map tw_pt_pc (tw_prods s)) as [|[] [|? ?]]; try discriminate. reflexivity. }
+  split. { destruct (tw_cpc s); try discriminate. reflexivity. }
+  split. { apply Bool.negb_true_iff. exact C3. }
+  split. { apply Nat.eqb_eq. exact C4. }
+  split. { destruct (list_eq_dec (list_eq_dec N.eq_dec) (tw_processed s) (tw_acc_msgs s)); [assumption|discriminate]. }
+  intro Hin. apply Bool.negb_true_iff in C6.
+  assert (Hy : existsb (fun a => match a with TwAEnd => true | _ => false end) (tw_applied s) = true);
+    [apply existsb_exists; exists TwAEnd; auto|congruence].
+Qed.
+
